@@ -408,6 +408,10 @@ JudgeProvideSingle(s, e, p) ==
        C13_single_swap_within_tolerance |-> G(good /\ half # Z, SwapAllowedNoBelief(pl, o, a, half, q.ret, Tol(e.swap_slip))),
        C13_single_deposit_ratio_within_tolerance |-> G(good /\ e.liq_slip.set /\ pl.kind = "cp" /\ BLe(e.liq_slip.v, Dec18) /\ AllPositive(resMid),
                                                        DepositRatioWithin(dep, resMid, e.liq_slip.v)),
+       \* "exactly the effect of swapping half and then depositing": accepted only if both steps of that sequence would be
+       C14_accepted_only_if_the_two_steps_would_be |-> G(good /\ half # Z /\ pl.kind = "cp" /\ AllPositive(resMid),
+                                                         /\ SwapAllowedNoBelief(pl, o, a, half, q.ret, Tol(e.swap_slip))
+                                                         /\ ((e.liq_slip.set /\ BLe(e.liq_slip.v, Dec18)) => DepositRatioWithin(dep, resMid, e.liq_slip.v))),
        C20_pool_rejected_noop  |-> G(~e.ok, Unchanged(s, p)) ]
      @@ (IF good THEN LET core == JudgeDepositCore(s, e, p, plMid, resMid, pl.supply, dep, preT, <<>>)
                       IN core @@ [ C14_equals_swap_half_then_deposit |->
